@@ -15,6 +15,7 @@ import (
 	"go/parser"
 	"go/scanner"
 	"go/token"
+	"strconv"
 	"strings"
 	"testing"
 
@@ -188,9 +189,8 @@ func lookupName(name string, e env) val {
 	if v, ok := e[name]; ok {
 		return v
 	}
-	var n int32
-	if _, err := fmt.Sscanf(name, "%d", &n); err == nil {
-		return val{i: n}
+	if n, err := strconv.ParseInt(name, 0, 64); err == nil { // Go literal syntax: 010 is octal, 0x10 hexadecimal
+		return val{i: int32(n)}
 	}
 	if name == "true" {
 		return val{isBool: true, b: true}
@@ -1011,7 +1011,18 @@ func genExpr(rt *rapid.T, nOps int, depth int, ni, nb *int) *Expr {
 			x.Atoms = append(x.Atoms, Atom{Prefix: rapid.SampledFrom(boolPrefixes).Draw(rt, "bprefix"), Name: boolNames[*nb%len(boolNames)]})
 			*nb++
 		case kind == 3:
-			x.Atoms = append(x.Atoms, Atom{Name: fmt.Sprint(rapid.SampledFrom([]int{0, 1, 2, 3, 5, 8, 31}).Draw(rt, "lit"))})
+			// literals in every spelling, bare, with a prefix operator, and doubly negated
+			lit := rapid.SampledFrom([]string{"0", "1", "2", "3", "5", "8", "31", "010", "017", "0x10", "0x1f", "0x7f"}).Draw(rt, "lit")
+			switch rapid.IntRange(0, 5).Draw(rt, "litform") {
+			case 0:
+				x.Atoms = append(x.Atoms, Atom{Prefix: "-", Name: lit})
+			case 1:
+				x.Atoms = append(x.Atoms, Atom{Prefix: "^", Name: lit})
+			case 2:
+				x.Atoms = append(x.Atoms, Atom{Prefix: "-", Group: &Expr{Atoms: []Atom{{Prefix: "-", Name: lit}}}})
+			default:
+				x.Atoms = append(x.Atoms, Atom{Name: lit})
+			}
 		default:
 			x.Atoms = append(x.Atoms, Atom{Prefix: rapid.SampledFrom([]string{"", "", "-", "^"}).Draw(rt, "iprefix"), Name: intNames[*ni%len(intNames)]})
 			*ni++
